@@ -7,6 +7,12 @@
 
    Three channels: channels 0 and 1 are accepted by the responder's acceptor (each end
    has a DLC table slot for each), channel 2 is refused (the acceptor returns None: DM).
+   Channel numbers 3, 4, 5 stand for channels 0, 1, 2 opened with a maximum frame size the
+   responder does not accept (Multiplexer.acceptable_frame_size, fix D17i: N1 > 32767 or
+   min(N1, L2CAP MTU - 5) < 23): the PN command is answered with DM whatever the acceptor
+   says and no DLC is created.  G_PNcmdRB / G_PNrspBad (not reachable under the environment
+   assumptions, see sm2_stepx): the responder's OWN configured frame size is unacceptable to
+   the initiator, which treats the PN response like a DM.
    What the initiator's multiplexer keeps for an open_dlc in flight is modelled as in the
    code: ONE state OPENING and ONE pending open_result (st field pend = the channel that
    open_dlc call asked for).  open_dlc while the multiplexer is not CONNECTED raises
@@ -26,6 +32,7 @@ Import ListNotations.
 Inductive fr2 :=
 | G_SABM0 | G_UA0 | G_DISC0
 | G_PNcmd (d : nat) | G_PNrsp (d : nat) | G_DM (d : nat)
+| G_PNcmdRB (d : nat) | G_PNrspBad (d : nat)
 | G_SABM (d : nat) | G_UA (d : nat) | G_DISC (d : nat).
 
 Record side2 := mkSide2 {
@@ -48,12 +55,16 @@ Inductive lbl2 :=
 
 Definition all_labels2 : list lbl2 :=
   [L_Connect; L_Open 0; L_Open 1; L_Open 2; L_ADisc 0; L_ADisc 1; L_BDisc 0; L_BDisc 1;
-   L_MuxDisc; L_Close; L_DeliverAB; L_DeliverBA].
+   L_MuxDisc; L_Close; L_DeliverAB; L_DeliverBA; L_Open 3; L_Open 4; L_Open 5].
 
 Definition sm2_init : st2 :=
   mkSt2 (mkSide2 MInit None None None) (mkSide2 MInit None None None) false false [] [].
 
 Definition accepted (d : nat) : bool := Nat.ltb d 2.
+(* the proposed frame size of open number k is acceptable to the responder *)
+Definition size_ok (k : nat) : bool := Nat.ltb k 3.
+(* the channel an open number refers to *)
+Definition chan_of (k : nat) : nat := if Nat.ltb k 3 then k else k - 3.
 
 Definition slot (s : side2) (d : nat) : option dst :=
   match d with O => e_s0 s | S O => e_s1 s | _ => None end.
@@ -95,13 +106,26 @@ Definition on_frame2 (responder : bool) (s : side2) (f : fr2) : side2 * list fr2
       then (set_pend (set_mux s MConnected) None, [], if has_pend s then EvFail else NoEv)
       else (s, [], NoEv)
   | G_PNcmd d =>
-      if responder then
+      (* on_mcc_pn, command: the frame size is checked before the acceptor is asked; the
+         acceptor is only asked when there is one (responder) *)
+      if negb (size_ok d) then (s, [G_DM d], NoEv)
+      else if responder then
         if accepted d then (set_slot s d (Some DConnecting), [G_PNrsp d], NoEv)
+        else (s, [G_DM d], NoEv)
+      else (s, [], NoEv)
+  | G_PNcmdRB d =>
+      if responder then
+        if accepted d then (set_slot s d (Some DConnecting), [G_PNrspBad d], NoEv)
         else (s, [G_DM d], NoEv)
       else (s, [], NoEv)
   | G_PNrsp d =>
       if is_mst (e_mux s) MOpening
       then (set_slot s d (Some DConnecting), [G_SABM d], NoEv)
+      else (s, [], NoEv)
+  | G_PNrspBad d =>
+      (* on_mcc_pn, response with an unacceptable frame size: like on_dm_frame *)
+      if is_mst (e_mux s) MOpening
+      then (set_pend (set_mux s MConnected) None, [], if has_pend s then EvFail else NoEv)
       else (s, [], NoEv)
   | G_SABM d =>
       match slot s d with
@@ -126,7 +150,7 @@ Definition on_frame2 (responder : bool) (s : side2) (f : fr2) : side2 * list fr2
 
 Definition fr2_chan (f : fr2) : nat :=
   match f with
-  | G_PNcmd d | G_PNrsp d | G_DM d | G_SABM d | G_UA d | G_DISC d => d
+  | G_PNcmd d | G_PNrsp d | G_DM d | G_SABM d | G_UA d | G_DISC d | G_PNcmdRB d | G_PNrspBad d => d
   | _ => 0
   end.
 
@@ -154,7 +178,7 @@ Definition sm2_step_gen (onf : bool -> side2 -> fr2 -> side2 * list fr2 * oev) (
       else s
   | L_Open d =>
       if is_mst (e_mux (t_a s)) MConnected &&
-         match slot (t_a s) d with None => true | Some _ => false end && Nat.ltb d 3
+         match slot (t_a s) (chan_of d) with None => true | Some _ => false end && Nat.ltb d 6
       then mkSt2 (set_pend (set_mux (t_a s) MOpening) (Some d)) (t_b s) false (t_bad s)
                  (t_ab s ++ [G_PNcmd d]) (t_ba s)
       else s
@@ -250,6 +274,7 @@ Definition fr2_code (f : fr2) : Z :=
   | G_SABM0 => 0 | G_UA0 => 1 | G_DISC0 => 2
   | G_PNcmd d => 100 + Z.of_nat d | G_PNrsp d => 110 + Z.of_nat d | G_DM d => 120 + Z.of_nat d
   | G_SABM d => 130 + Z.of_nat d | G_UA d => 140 + Z.of_nat d | G_DISC d => 150 + Z.of_nat d
+  | G_PNcmdRB d => 160 + Z.of_nat d | G_PNrspBad d => 170 + Z.of_nat d
   end%Z.
 Definition pend_code (p : option nat) : Z := match p with None => (-1)%Z | Some d => Z.of_nat d end.
 Definition side2_obs (s : side2) := (mst_code (e_mux s), dst_code (e_s0 s), dst_code (e_s1 s), pend_code (e_pend s)).
@@ -264,7 +289,7 @@ Fixpoint sm2_trace (s : st2) (ls : list lbl2) :=
 (* ---------- outside the environment assumptions: the RESPONDER disconnects the multiplexer
    (Multiplexer.disconnect is role-agnostic; rfcomm.Server offers no call for it).  Used only
    to state known finding D20j. *)
-Inductive lbl2x := X (l : lbl2) | X_BMuxDisc.
+Inductive lbl2x := X (l : lbl2) | X_BMuxDisc | X_OpenRB (d : nat).
 
 Definition sm2_stepx (s : st2) (l : lbl2x) : st2 :=
   match l with
@@ -272,6 +297,14 @@ Definition sm2_stepx (s : st2) (l : lbl2x) : st2 :=
   | X_BMuxDisc =>
       if negb (t_closed s) && is_mst (e_mux (t_b s)) MConnected
       then mkSt2 (t_a s) (set_mux (t_b s) MDisconnecting) false (t_bad s) (t_ab s) (t_ba s ++ [G_DISC0])
+      else s
+  | X_OpenRB d =>
+      (* open_dlc of a channel for which the responder is CONFIGURED with a frame size
+         outside 23..32767 (Server.listen does not validate it) *)
+      if negb (t_closed s) && is_mst (e_mux (t_a s)) MConnected &&
+         match slot (t_a s) d with None => true | Some _ => false end && Nat.ltb d 2
+      then mkSt2 (set_pend (set_mux (t_a s) MOpening) (Some d)) (t_b s) false (t_bad s)
+                 (t_ab s ++ [G_PNcmdRB d]) (t_ba s)
       else s
   end.
 
